@@ -36,7 +36,19 @@ func ppObserve(q []byte) (n int, panicked bool, alloc uint64) {
 			return -1, false, 0
 		}
 	}
-	return len(res), false, 0
+	n = len(res)
+	// the caller owns the result: a parse function fills in the types it knows. What it writes must not show
+	// up in the result of any other call (every call is followed by this scribble, every result is checked above)
+	for i := range res {
+		res[i] = 23
+	}
+	if cap(res) > len(res) {
+		ext := res[:cap(res)]
+		for i := len(res); i < len(ext); i++ {
+			ext[i] = 25
+		}
+	}
+	return n, false, 0
 }
 
 // hostile placeholder texts: what a client can put into a Query/Parse message to make the
@@ -73,6 +85,8 @@ func runC20(c *runCfg) error {
 		defer f.Close()
 		sc := bufio.NewScanner(f)
 		sc.Buffer(make([]byte, 1<<20), 1<<26)
+		// a result is judged after other calls have been made (and their results written into)
+		ppObserve([]byte("select $1, $2, $3 where x = $70"))
 		for sc.Scan() {
 			l := sc.Text()
 			i := strings.Index(l, "(q x")
